@@ -23,6 +23,7 @@ class StrWorld(LifeWorld):
         if self.rchan is None:
             raise RuntimeError("the body did not start")
         chans["R"]["c"] = self.rchan
+        cbitems = {"L": {}, "R": {}}
         for name, side, c, a, b in self.cl_ops:
             obs = ""
             if name == "gwreconf":
@@ -34,12 +35,21 @@ class StrWorld(LifeWorld):
                 chans["R"]["d"] = chans["R"]["c"].receive(timeout=5)
             elif name == "chreconf":
                 chans[side][c].reconfigure(py2str_as_py3str=a, py3str_as_py2str=b)
+            elif name == "setcb":
+                cbitems[side][c] = []
+                chans[side][c].setcallback(cbitems[side][c].append)
+            elif name == "drop":
+                del chans["L"][c]
+                gc.collect()
             elif name == "probe":
                 src = chans[side][c]
                 src.gateway._send(gateway_base.Message.CHANNEL_DATA, src.id, PROBE)
                 self._settle()
                 other = "R" if side == "L" else "L"
-                obs = pyval.to_model(chans[other][c].receive(timeout=5))
+                if c in cbitems[other]:
+                    obs = pyval.to_model(cbitems[other][c].pop()) if cbitems[other][c] else "nothing-delivered"
+                else:
+                    obs = pyval.to_model(chans[other][c].receive(timeout=5))
             else:
                 raise ValueError(name)
             self._settle()
